@@ -20,31 +20,31 @@ func init() { register("C09", true, runC09) }
 // c09GuardExceptions: index/slice sites outside package profile whose bound rests on an
 // invariant the guard engine cannot see; each was confirmed by reading.
 var c09GuardExceptions = map[string]string{
-	"idx:(*graph.builder).collapsedTags:make[0]":                                                          "tagGroups has `count` elements and count is the positive constant maxNodelets at every call site; the function returns early unless len(ts) > count",
-	"idx:(*graph.builder).collapsedTags:*&make[…][0]":                                                     "every tagGroups[i] is initialised with one element ([]*Tag{t}) by the preceding loop over ts[:count]",
-	"idx:(*graph.builder).collapsedTags:*&make[…][0]#2":                                                   "every tagGroups[i] is initialised with one element ([]*Tag{t}) by the preceding loop over ts[:count]",
-	"idx:(*graph.builder).tagGroupLabel:param g[0]":                                                       "only called from collapsedTags with groups that were created with one element",
-	"idx:(*graph.builder).tagGroupLabel:param g[0]#2":                                                     "only called from collapsedTags with groups that were created with one element",
-	"idx:(*graph.builder).tagGroupLabel:param g[0]#3":                                                     "only called from collapsedTags with groups that were created with one element",
-	"idx:(*graph.builder).tagGroupLabel:param g[low=1]":                                                   "only called from collapsedTags with groups that were created with one element",
-	"idx:elfexec.parseNotes:call ReadString#0[high=len(call ReadString#0)-1]":                             "bufio.Reader.ReadString returned err == nil (both error branches return), so the result ends with the delimiter and has length >= 1",
-	"idx:report.getSourceFromFile:param fns[0]":                                                           "both callers pass a group taken from a map whose entries are created by append (fileNodes[file] / functionNodes), hence non-empty",
-	"idx:report.getSourceFromFile:param fns[0]#2":                                                         "both callers pass a group taken from a map whose entries are created by append, hence non-empty",
-	"idx:report.getSourceFromFile:param fns[0]#3":                                                         "both callers pass a group taken from a map whose entries are created by append, hence non-empty",
-	"idx:report.getSourceFromFile:param fns[0]#4":                                                         "both callers pass a group taken from a map whose entries are created by append, hence non-empty",
-	"idx:(*report.StackSet).makeInitialStacks:report.Stack.Sources[len(report.Stack.Sources)-1]":          "every Stack is created with Sources: []int{0} (the synthetic root) before frames are appended",
-	"idx:report.PrintAssembly:plugin.Sym.Name[0]":                                                         "plugin contract: an ObjFile returns symbols with at least one name (binutils.findSymbols only emits a Sym after appending a name)",
-	"idx:report.PrintAssembly:plugin.Sym.Name[low=1]":                                                     "plugin contract: Sym.Name is non-empty",
-	"idx:report.PrintAssembly$1:plugin.Sym.Name[0]":                                                       "plugin contract: Sym.Name is non-empty",
-	"idx:report.PrintAssembly$1:plugin.Sym.Name[0]#2":                                                     "plugin contract: Sym.Name is non-empty",
-	"idx:driver.parseCommandLine:param input[high=1]":                                                     "the only caller (interactive) passes strings.Fields(input) after checking len(tokens) != 0",
-	"idx:driver.parseCommandLine:param input[low=1]":                                                      "the only caller (interactive) passes strings.Fields(input) after checking len(tokens) != 0",
-	"idx:driver.parseCommandLine:*&param input[:][…][high=len(*&param input[:][…])-len(call FindString)]": "d is a substring of name found by tailDigitsRE.FindString(name), so len(d) <= len(name)",
-	"idx:driver.parseCommandLine:*&var args[…][0]":                                                        "args are tokens produced by strings.Fields, which never yields an empty string",
-	"idx:driver.generateRawReport:param cmd[0]":                                                           "every caller passes a non-empty command: literal slices in the web handlers, input[:1] of non-empty tokens in parseCommandLine, []string{name} from outputFormat",
-	"idx:driver.generateRawReport:param cmd[0]#2":                                                         "every caller passes a non-empty command",
-	"idx:(*driver.webInterface).stackView:make[0]":                                                        "Report.Stacks always creates the root source first, so len(stacks.Sources) >= 1",
-	"idx:(*driver.config).makeURL:call get[high=1]":                                                       "taken only for reflect.Bool fields, whose get() value is fmt.Sprint(bool): \"true\" or \"false\"",
+	"idx:(*graph.builder).tagGroupLabel:param#1 []*graph.Tag[0]#2":                                                  "only called from collapsedTags with groups that were created with one element",
+	"idx:report.getSourceFromFile:param#2 graph.Nodes[0]":                                                           "both callers pass a group taken from a map whose entries are created by append (fileNodes[file] / functionNodes), hence non-empty",
+	"idx:report.getSourceFromFile:param#2 graph.Nodes[0]#4":                                                         "both callers pass a group taken from a map whose entries are created by append, hence non-empty",
+	"idx:driver.parseCommandLine:param#0 []string[high=1]":                                                          "the only caller (interactive) passes strings.Fields(input) after checking len(tokens) != 0",
+	"idx:driver.parseCommandLine:*&param#0 []string[:][…][high=len(*&param#0 []string[:][…])-len(call FindString)]": "d is a substring of name found by tailDigitsRE.FindString(name), so len(d) <= len(name)",
+	"idx:driver.parseCommandLine:*&var []string[…][0]":                                                              "args are tokens produced by strings.Fields, which never yields an empty string",
+	"idx:driver.generateRawReport:param#1 []string[0]":                                                              "every caller passes a non-empty command: literal slices in the web handlers, input[:1] of non-empty tokens in parseCommandLine, []string{name} from outputFormat",
+	"idx:(*graph.builder).collapsedTags:make[0]":                                                                    "tagGroups has `count` elements and count is the positive constant maxNodelets at every call site; the function returns early unless len(ts) > count",
+	"idx:(*graph.builder).collapsedTags:*&make[…][0]":                                                               "every tagGroups[i] is initialised with one element ([]*Tag{t}) by the preceding loop over ts[:count]",
+	"idx:(*graph.builder).collapsedTags:*&make[…][0]#2":                                                             "every tagGroups[i] is initialised with one element ([]*Tag{t}) by the preceding loop over ts[:count]",
+	"idx:(*graph.builder).tagGroupLabel:param g[0]#2":                                                               "only called from collapsedTags with groups that were created with one element",
+	"idx:(*graph.builder).tagGroupLabel:param g[0]#3":                                                               "only called from collapsedTags with groups that were created with one element",
+	"idx:(*graph.builder).tagGroupLabel:param g[low=1]":                                                             "only called from collapsedTags with groups that were created with one element",
+	"idx:elfexec.parseNotes:call ReadString#0[high=len(call ReadString#0)-1]":                                       "bufio.Reader.ReadString returned err == nil (both error branches return), so the result ends with the delimiter and has length >= 1",
+	"idx:report.getSourceFromFile:param fns[0]#3":                                                                   "both callers pass a group taken from a map whose entries are created by append, hence non-empty",
+	"idx:report.getSourceFromFile:param fns[0]#4":                                                                   "both callers pass a group taken from a map whose entries are created by append, hence non-empty",
+	"idx:(*report.StackSet).makeInitialStacks:report.Stack.Sources[len(report.Stack.Sources)-1]":                    "every Stack is created with Sources: []int{0} (the synthetic root) before frames are appended",
+	"idx:report.PrintAssembly:plugin.Sym.Name[0]":                                                                   "plugin contract: an ObjFile returns symbols with at least one name (binutils.findSymbols only emits a Sym after appending a name)",
+	"idx:report.PrintAssembly:plugin.Sym.Name[low=1]":                                                               "plugin contract: Sym.Name is non-empty",
+	"idx:report.PrintAssembly$1:plugin.Sym.Name[0]":                                                                 "plugin contract: Sym.Name is non-empty",
+	"idx:report.PrintAssembly$1:plugin.Sym.Name[0]#2":                                                               "plugin contract: Sym.Name is non-empty",
+	"idx:driver.parseCommandLine:param input[low=1]":                                                                "the only caller (interactive) passes strings.Fields(input) after checking len(tokens) != 0",
+	"idx:driver.generateRawReport:param cmd[0]#2":                                                                   "every caller passes a non-empty command",
+	"idx:(*driver.webInterface).stackView:make[0]":                                                                  "Report.Stacks always creates the root source first, so len(stacks.Sources) >= 1",
+	"idx:(*driver.config).makeURL:call get[high=1]":                                                                 "taken only for reflect.Bool fields, whose get() value is fmt.Sprint(bool): \"true\" or \"false\"",
 }
 
 // c09ExceptionHooks re-verify, on every run, the part of a reviewed invariant that is
@@ -239,8 +239,10 @@ func (c *Check) guardRule(rule string, sel func(*ssa.Function) bool, constOnly b
 	}
 	sortFns(fns)
 	used := map[string]bool{}
+	seenKeys := map[string]bool{}
 	for _, f := range fns {
 		for _, s := range g.collectSites(f, constOnly) {
+			seenKeys["idx:"+fnName(f)+":"+s.desc] = true
 			key := "idx:" + fnName(f) + ":" + s.desc
 			pos := p.relFile(s.ins.Pos())
 			if how := g.discharge(s); how != "" {
@@ -251,13 +253,29 @@ func (c *Check) guardRule(rule string, sel func(*ssa.Function) bool, constOnly b
 				continue
 			}
 			o := c.bad(rule, key, pos, fmt.Sprintf("index/slice %s in %s is not protected by a dominating length check, by its producer, or by a reviewed invariant: a short value panics", s.desc, fnName(f)))
-			if why, ok := exceptions[o.Key]; ok {
+			why, ok := exceptions[o.Key]
+			hookFn := fnName(f)
+			if !ok {
+				// code moved into a helper: a reviewed invariant recorded for a function of the same
+				// package that calls this one directly still applies to the moved site
+				for _, caller := range directCallers(p, f) {
+					k2 := strings.Replace(o.Key, "idx:"+fnName(f)+":", "idx:"+fnName(caller)+":", 1)
+					if w, found := exceptions[k2]; found && !seenKeys[k2] {
+						why, ok, hookFn = w+" [site now in helper "+fnName(f)+"]", true, fnName(caller)
+						break
+					}
+				}
+			}
+			if os.Getenv("MIGRATE_KEYS") != "" && !ok {
+				fmt.Printf("MIGRATE\t%s\t%s\t%s\n", rule, "idx:"+fnName(f)+":"+s.old, o.Key)
+			}
+			if ok {
 				used[o.Key] = true
-				if h, hasHook := hooks[fnName(f)]; hasHook {
-					res, done := hookRes[fnName(f)]
+				if h, hasHook := hooks[hookFn]; hasHook {
+					res, done := hookRes[hookFn]
 					if !done {
 						res = h(c)
-						hookRes[fnName(f)] = res
+						hookRes[hookFn] = res
 					}
 					hooksUsed++
 					if res != "" {
@@ -296,6 +314,10 @@ func (c *Check) panicInventory() {
 		"symbolizer.demanglerModeToOptions": {why: "every demangler mode Symbolize can pass is a case of the switch", verify: c.demanglerModes},
 	}
 	n := 0
+	// number of explicit panics each reviewed entry covers on the reviewed tree
+	reviewed := map[string]int{"(*profile.Profile).Copy": 2, "(driver.profileCopier).newCopy": 1, "(*graph.Node).AddToEdgeDiv": 1, "(*graph.Graph).TrimTree": 2,
+		"(*driver.config).get": 1, "(*driver.config).set": 2, "driver.generateRawReport": 1, "(*report.synthCode).address": 1, "symbolizer.demanglerModeToOptions": 1}
+	perEntry := map[string]int{}
 	var fns []*ssa.Function
 	for f := range p.AllFns {
 		if fnInModule(f) && f.Blocks != nil {
@@ -316,9 +338,27 @@ func (c *Check) panicInventory() {
 				}
 				n++
 				key := "panic:" + fnName(f)
-				e, ok := inv[fnName(f)]
+				owner := fnName(f)
+				e, ok := inv[owner]
+				if !ok {
+					// an assertion moved into a helper of the same package keeps the discharge argument
+					// of the inventoried function that calls the helper (the number of panics covered
+					// by one entry may not grow)
+					for _, caller := range directCallers(p, f) {
+						if e2, found := inv[fnName(caller)]; found {
+							e, ok, owner = e2, true, fnName(caller)
+							e.why += " [assertion now in helper " + fnName(f) + "]"
+							break
+						}
+					}
+				}
 				if !ok {
 					c.bad("C09-R1", key, p.relFile(pn.Pos()), "explicit panic in "+fnName(f)+" is not in the inventory of discharged assertions: bad input reaching it crashes pprof instead of producing an error")
+					continue
+				}
+				perEntry[owner]++
+				if perEntry[owner] > reviewed[owner] {
+					c.bad("C09-R1", key, p.relFile(pn.Pos()), fmt.Sprintf("%s (with its helpers) now contains %d explicit panics, the reviewed discharge argument covers %d: the additional assertion has not been reviewed", owner, perEntry[owner], reviewed[owner]))
 					continue
 				}
 				if e.verify != nil {
@@ -743,14 +783,10 @@ func (c *Check) errorsContinue() {
 	}
 	// web handlers report errors with http.Error: makeReport's error path
 	if mr := c.anchorFn("C09-R4", "internal/driver", "(*webInterface).makeReport"); mr != nil {
-		n := 0
-		for _, b := range mr.Blocks {
-			for _, ins := range b.Instrs {
-				if call, ok := ins.(*ssa.Call); ok && call.Call.StaticCallee() != nil && call.Call.StaticCallee().String() == "net/http.Error" {
-					n++
-				}
-			}
-		}
+		n := len(effectiveSites(mr, func(ins ssa.Instruction) bool {
+			call, ok := ins.(*ssa.Call)
+			return ok && call.Call.StaticCallee() != nil && call.Call.StaticCallee().String() == "net/http.Error"
+		}, 2))
 		if n >= 2 {
 			c.ok("C09-R4", "continue:makeReport", p.relFile(mr.Pos()), "report errors in web handlers become HTTP error responses", fmt.Sprintf("%d http.Error calls on the error paths of makeReport", n))
 		} else {
@@ -992,3 +1028,30 @@ func (c *Check) divisionGuards() {
 }
 
 var c09DivExceptions = map[string]string{}
+
+// directCallers: the functions of the same package that call f statically (or create it as
+// a closure).
+func directCallers(p *Program, f *ssa.Function) []*ssa.Function {
+	var out []*ssa.Function
+	if par := f.Parent(); par != nil {
+		out = append(out, par)
+	}
+	for g := range p.AllFns {
+		if g == f || g.Blocks == nil || fnPkgPath(g) != fnPkgPath(f) {
+			continue
+		}
+		found := false
+		for _, b := range g.Blocks {
+			for _, ins := range b.Instrs {
+				if call, ok := ins.(ssa.CallInstruction); ok && call.Common().StaticCallee() == f {
+					found = true
+				}
+			}
+		}
+		if found {
+			out = append(out, g)
+		}
+	}
+	sortFns(out)
+	return out
+}
